@@ -72,13 +72,13 @@ def _set(xs):
 
 def cfg(mode, nc, length, *, veccat=None, rots=(0,), shapes='Sh11', methods=(), sigmas='NoSigmas',
         srcs=('free',), freemasks='MasksUpTo1', minkeep=2, wkinds=('none',), wcat='NoW', wecat='NoW',
-        factors=(1,), emitmod=1, emit=True, spec=None):
+        factors=(1,), emitmod=1, emitaligned=1, emit=True, spec=None):
     veccat = veccat or f'VecCat{length}'
     lines = ['CONSTANTS', f'  Mode = "{mode}"', f'  NC = {nc}', f'  LEN = {length}', f'  VecCat <- {veccat}',
              f'  Rots = {_set(rots)}', f'  Shapes <- {shapes}', f'  Methods = {_set(methods)}',
              f'  Sigmas <- {sigmas}', f'  MaskSrcs = {_set(srcs)}', f'  FreeMasks <- {freemasks}',
              f'  MinKeep = {minkeep}', f'  WKinds = {_set(wkinds)}', f'  WCat <- {wcat}', f'  WECat <- {wecat}',
-             f'  Factors = {_set(factors)}', f'  EmitMod = {emitmod}']
+             f'  Factors = {_set(factors)}', f'  EmitMod = {emitmod}', f'  EmitAligned = {emitaligned}']
     if spec:
         lines.append(f'SPECIFICATION {spec}')
     else:
@@ -95,7 +95,7 @@ def trace_cfg(nc):
     lines = ['CONSTANTS', '  Mode = "compare"', f'  NC = {nc}', f'  LEN = {length}', '  VecCat <- NoSeq',
              '  Rots <- Unused', '  Shapes <- Unused', '  Methods <- Unused', '  Sigmas <- NoSeq',
              '  MaskSrcs <- Unused', '  FreeMasks <- Unused', '  MinKeep = 2', '  WKinds <- Unused',
-             '  WCat <- NoSeq', '  WECat <- NoSeq', '  Factors <- Unused', '  EmitMod = 1',
+             '  WCat <- NoSeq', '  WECat <- NoSeq', '  Factors <- Unused', '  EmitMod = 1', '  EmitAligned = 1',
              'SPECIFICATION TSpec', 'INVARIANT ErrorIffDiffering', 'INVARIANT MaskedIsDeleted',
              'CHECK_DEADLOCK FALSE']
     return '\n'.join(lines) + '\n'
